@@ -64,6 +64,12 @@ CHECKS = {
     text="Search, not proof: 40k/3M generated (option, value) pairs and 1.5k/150k manifest requests per tier; enumerated choices of every option are always in the value pool.",
     note=SHIMS + ". The server's own option parser is used deliberately on the media side. One open known finding (C07-K1: licence URLs containing '+' or %-escapes are unquoted twice).",
     design_ref="DESIGN.md section 4, C07"),
+ "C11": dict(
+    engine="hypothesis",
+    technique="differential against independent re-statements (hashlib key-seed algorithm, uuid bytes_le, own FIPS-197 AES); PlayReady Object generate -> independent struct/UTF-16/lxml parse round trip; model-based ClearKey licence requests; manifest ContentProtection payloads compared with the pssh boxes of the init segment of the same request",
+    text="Search, not proof: 20k/1.5M key triples, 6k/400k PlayReady objects, 3k/200k licence requests, 0.9k/40k manifest-vs-init comparisons per tier.",
+    note=SHIMS + ". vt/aes.py is checked against the FIPS-197 vectors at import of its self-test. Licence URLs with braces that are not documented format fields are outside this property's domain (their 5xx is C16's).",
+    design_ref="DESIGN.md section 4, C11"),
 }
 
 _PENDING = "check under construction in this build round; not yet registered (see DESIGN.md section 9)"
